@@ -1,6 +1,8 @@
 //! vharness: drives the real vibrato implementation on generated cases and prints
 //! one protocol line per case (input + implementation observation).
+mod corpus;
 mod gen;
+mod rewrite;
 mod rng;
 mod tok;
 mod wire;
@@ -152,6 +154,16 @@ fn main() {
             let seed: u64 = args[3].parse().unwrap();
             let n: usize = args[4].parse().unwrap();
             tok_profile(profile, seed, n, &mut out);
+        }
+        "rewrite" => {
+            let seed: u64 = args[2].parse().unwrap();
+            let n: usize = args[3].parse().unwrap();
+            rewrite::run(seed, n, &mut out);
+        }
+        "corpus" => {
+            let seed: u64 = args[2].parse().unwrap();
+            let n: usize = args[3].parse().unwrap();
+            corpus::run(seed, n, &mut out);
         }
         other => {
             eprintln!("unknown stream {other}");
